@@ -101,7 +101,12 @@ def M1(inp, n):
     put(o, 'noopIDx', base + noop_pos)
     put(o, 'otherNodes', set(Node(x) for x in cur))
     own_term_pending = mpos >= 0 and mpos > noop_pos
-    put(o, 'changeClusterIDx', (base + mpos) if own_term_pending else None)
+    stale = None
+    if not own_term_pending and inp.flag('stale_change_index'):
+        # left over from an earlier leadership of this node (the field is only cleared lazily): some index below the own-term no-op
+        stale = inp.int('stale_idx', 1, 8)
+        inp.assume(stale < base + noop_pos)
+    put(o, 'changeClusterIDx', (base + mpos) if own_term_pending else stale)
     for x in cur:
         get(o, 'raftNextIndex')[Node(x)] = last + 1
         get(o, 'raftMatchIndex')[Node(x)] = 0
